@@ -4,15 +4,19 @@ import (
 	"fmt"
 	"os"
 	"sort"
+	"strings"
 	"sync"
+	"sync/atomic"
 	"time"
 
 	"connectrpc.com/connect"
 
 	"context"
 
+	pbssinternal "github.com/streamingfast/substreams/pb/sf/substreams/intern/v2"
 	pbsubstreams "github.com/streamingfast/substreams/pb/sf/substreams/v1"
 	"github.com/streamingfast/substreams/service"
+	"google.golang.org/grpc/status"
 	"google.golang.org/protobuf/proto"
 
 	"verif/harness/fw"
@@ -28,7 +32,8 @@ func init() {
 		ID:    "C16",
 		Level: "fault_enumeration",
 		Rule: "wiring: tier1 with the REAL work.RemoteWorker -> real gRPC client -> in-memory listener (bufconn) -> real grpc.Server -> real Tier2Service.ProcessRange (real error mapping, overload handling, retry classification). " +
-			"case = one generated (package, production/development request with >=2 tier2 jobs); fault-free run gives the job list J. Transient part: EVERY single placement (job x first attempt x kind in {refuse before the call, drop after k=0/1 received messages with and without cancelling the server side (zombie job), completion lost after the job wrote its files}) is run, plus PRNG pairs and triples of faults (also on retries of the same job) and one run against a tier2 limited to 1 concurrent request with 3 workers (real overload path); each must complete with outputs == sequential reference and a clean cache audit. " +
+			"case = one generated (package, production/development request with >=2 tier2 jobs); fault-free run gives the job list J. Transient part: EVERY single placement (job x first attempt x kind in {refuse before the call, drop after k=0/1 received messages with and without cancelling the server side (zombie job), completion lost after the job wrote its files}) is run, plus PRNG pairs and triples of faults (also on retries of the same job) and one run against a tier2 limited to 1 concurrent request with 3 workers (real overload path); each must complete with outputs == sequential reference and a clean cache audit, and once every server-side handler has returned (GracefulStop) a limited tier2 must signal ready again. " +
+			"Admission bursts: a tier2 limited to 1..2 concurrent requests receives 12 bursts of 4..11 simultaneous ProcessRange calls over real gRPC (refused as invalid right after admission); afterwards a single call must be admitted (not 'overloaded') and the service must signal ready. " +
 			"Deterministic part: one module is made to fail at block b for b in the request range (quick: 3 values, thorough: every b), both modes, for half of them after a transient fault on the first attempt of the failing segment's jobs: the request must end with an error that the real tier1 mapping turns into InvalidArgument, every delivered block is a correct prefix strictly below b, nothing is delivered after the error. " +
 			"non-trivial = transient scenario in which at least one injected fault actually triggered and the job was retried; deterministic scenario in which the failure surfaced; distinct by (package, request, fault list)",
 		Assumptions: []string{
@@ -240,6 +245,12 @@ func runC16(c *fw.Case) {
 		return
 	}
 
+	// ---- admission bursts against a tier2 with a concurrent-request limit
+	if f := c16AdmissionBursts(c, s); f != nil {
+		c.Violation("C16/"+f.Sig, f.What, s.witness(map[string]any{"kind": "admission bursts"}))
+		return
+	}
+
 	// ---- deterministic failure at block b
 	lo, hi := uint64(req.Start), req.Stop
 	var bs []uint64
@@ -405,4 +416,82 @@ type nativeProgram = native.Program
 
 func cloneModules(m *pbsubstreams.Modules) *pbsubstreams.Modules {
 	return proto.Clone(m).(*pbsubstreams.Modules)
+}
+
+
+// c16AdmissionBursts: a tier2 limited to L concurrent requests receives bursts of simultaneous ProcessRange calls over real
+// gRPC (calls that are admitted end at once: they carry no modules and are refused as invalid AFTER admission). Whatever the
+// interleaving of admission checks, once every handler has returned the service must signal "ready" and admit a call again:
+// a burst of overload rejections is a transient condition, not a permanent one.
+func c16AdmissionBursts(c *fw.Case, s *scen) *sim.Finding {
+	dir, _ := os.MkdirTemp(os.Getenv("VH_SCRATCH"), "c16a-")
+	defer os.RemoveAll(dir)
+	cl := sim.NewCluster(dir, s.seg, s.cl.Head)
+	limit := uint64(1 + c.R.Intn(2))
+	rt, err := cl.NewRemoteTier2(limit)
+	if err != nil {
+		return nil
+	}
+	defer rt.Close()
+	cli, closeFn, _, _, err := rt.ClientFactory()()
+	if err != nil {
+		return nil
+	}
+	defer closeFn()
+	call := func() string {
+		ctx, cancel := context.WithTimeout(context.Background(), 30*time.Second)
+		defer cancel()
+		st, err := cli.ProcessRange(ctx, &pbssinternal.ProcessRangeRequest{OutputModule: "x", SegmentSize: 10})
+		if err == nil {
+			for err == nil {
+				_, err = st.Recv()
+			}
+		}
+		// the service answers with connect errors; through a plain gRPC server they arrive with their text only
+		msg := status.Convert(err).Message()
+		switch {
+		case strings.Contains(msg, "overloaded"):
+			return "overloaded"
+		case strings.Contains(msg, "missing modules"):
+			return "admitted"
+		}
+		return "other: " + msg
+	}
+	var admitted, rejected, other int64
+	for burst := 0; burst < 12; burst++ {
+		n := 4 + c.R.Intn(8)
+		start := make(chan struct{})
+		var wg sync.WaitGroup
+		for i := 0; i < n; i++ {
+			wg.Add(1)
+			go func() {
+				defer wg.Done()
+				<-start
+				switch r := call(); r {
+				case "admitted":
+					atomic.AddInt64(&admitted, 1)
+				case "overloaded":
+					atomic.AddInt64(&rejected, 1)
+				default:
+					atomic.AddInt64(&other, 1)
+					c.Distinct("admission_burst_other_outcomes", fw.NormalizeMsg(r))
+				}
+			}()
+		}
+		close(start)
+		wg.Wait()
+	}
+	c.Count("admission_burst_calls_admitted", admitted)
+	c.Count("admission_burst_calls_rejected_as_overloaded", rejected)
+	c.Count("admission_burst_calls_other_outcome", other)
+	// every call has returned to its client; one more call, alone, must be admitted
+	code := call()
+	ready, ok := rt.Quiesce()
+	if code == "overloaded" {
+		return &sim.Finding{Sig: "overload/permanently-overloaded-after-a-burst", What: fmt.Sprintf("tier2 limited to %d concurrent request(s): after bursts of simultaneous calls (%d admitted, %d rejected) had all returned, a single call is still rejected as overloaded although nothing runs", limit, admitted, rejected)}
+	}
+	if ok && !ready {
+		return &sim.Finding{Sig: "overload/tier2-not-ready-after-all-jobs-ended", What: fmt.Sprintf("tier2 limited to %d concurrent request(s): every handler has returned but the service signals not-ready", limit)}
+	}
+	return nil
 }
